@@ -15,11 +15,22 @@ def _history(seed, confkw):
             rec.env(d); steps.append(d)
         rec.sync("-E"); steps.append("sync -E")
 
-        def pending():
+        def pending(onto=None):
             if rng.random() < 0.5:
                 d = rng.choice([g.op_add, g.op_touch])()
                 if d:
                     rec.env(d); steps.append(d)
+            if onto is not None and confkw["nd"] > 1 and rng.random() < 0.6:
+                # a file of another disk is copied (cp -p) onto the disk that lost everything: a "copy" for the scan
+                others = [(e, f) for e in range(confkw["nd"]) if e != onto for f in g.files(e) if f != "zz"
+                          and os.path.getsize(a.path(e, f)) > 0]
+                if others:
+                    e, f = rng.choice(others)
+                    data = open(a.path(e, f), "rb").read(); stt = os.lstat(a.path(e, f))
+                    with open(a.path(onto, f), "wb") as fh:
+                        fh.write(data)
+                    os.utime(a.path(onto, f), ns=(stt.st_mtime_ns, stt.st_mtime_ns))
+                    rec.env("cp -p %d/%s to disk %d" % (e, f, onto)); steps.append("cp -p %d/%s to disk %d" % (e, f, onto))
 
         def expect_refused(*flags):
             r, o = rec.sync(*flags)
@@ -40,7 +51,7 @@ def _history(seed, confkw):
                 for f in files:
                     a.remove(d, f)
                 rec.env("delete all files of disk %d" % d); steps.append("delete all files of disk %d" % d)
-                pending(); expect_refused(); proceed("-E")
+                pending(onto=d); expect_refused(); proceed("-E")
             elif trig == "all-rewritten" and files:
                 for f in files:
                     a.set_mtime(d, f, g.stamp())
@@ -121,6 +132,55 @@ def _history(seed, confkw):
                     raise vlib.ToolFailure("stopped command did not finish after SIGCONT")
                 rec.lines.append({"e": "Reset", "dmg": True, "state": rec.state()})
                 steps.append("first command finished rc=%s" % p1.returncode)
+                # second flow: command A is stopped just before it would remove or unlink the lock file (if it ever does: the
+                # lock is released by then), command B starts and is stopped holding the lock, A is continued and ends; every
+                # further command must still be refused while B holds the lock
+                envA = dict(env, VSHIM_RULES="unlink,.lock,1,stopb;remove,.lock,1,stopb")
+                pA = subprocess.Popen([a.bin, "-c", a.conf_path()] + a.BASE_FLAGS + ["--test-force-murmur3", "status"], env=envA,
+                                      stdout=subprocess.PIPE, stderr=subprocess.PIPE)
+                for _ in range(150):
+                    time.sleep(0.02)
+                    if pA.poll() is not None:
+                        break
+                    try:
+                        if open("/proc/%d/stat" % pA.pid).read().split()[2] in ("T", "t"):
+                            break
+                    except OSError:
+                        break
+                envB = dict(env, VSHIM_RULES="any,*,%d,stop" % rng.randint(2, 6))
+                pB = subprocess.Popen([a.bin, "-c", a.conf_path()] + a.BASE_FLAGS + ["--test-force-murmur3", "check"], env=envB,
+                                      stdout=subprocess.PIPE, stderr=subprocess.PIPE)
+                bstopped = False
+                for _ in range(150):
+                    time.sleep(0.02)
+                    if pB.poll() is not None:
+                        break
+                    try:
+                        if open("/proc/%d/stat" % pB.pid).read().split()[2] in ("T", "t"):
+                            bstopped = True
+                            break
+                    except OSError:
+                        break
+                if pA.poll() is None:
+                    os.kill(pA.pid, signal.SIGCONT)
+                    try:
+                        pA.wait(timeout=60)
+                    except subprocess.TimeoutExpired:
+                        pA.kill(); pB.kill()
+                        raise vlib.ToolFailure("command A did not finish after SIGCONT")
+                if bstopped:
+                    rec.lines.append({"e": "Reset", "dmg": True, "state": rec.state()})
+                    steps.append("status has ended, check is stopped holding the lock")
+                    for cmd in rng.sample([("sync",), ("fix",), ("scrub",), ("status",), ("diff",)], 3):
+                        rec.refused(cmd[0], "lock:%s-while-check-after-status-ended" % cmd[0], *cmd[1:])
+                        steps.append("%s while check holds the lock (must be refused)" % cmd[0])
+                    os.kill(pB.pid, signal.SIGCONT)
+                try:
+                    pB.wait(timeout=60)
+                except subprocess.TimeoutExpired:
+                    pB.kill()
+                    raise vlib.ToolFailure("command B did not finish after SIGCONT")
+                rec.lines.append({"e": "Reset", "dmg": True, "state": rec.state()})
                 a.clock += 10
                 r, o = rec.sync("-F", "-E"); steps.append("sync -F -E -> %s" % o["exit"])
         r, o = rec.check(); steps.append("check -> %s" % o["exit"])
